@@ -356,4 +356,61 @@ theorem sna_describe_48 (f : Bytes) (r : Machine) (a : Spec.AState) (hk : r.kind
     rfl
   · rw [refresh_scr48 _ (by show m3.kind = _; exact hk3), (refresh_same _).2.2.2.1]
 
+/-! ### a CPU write on the 48K, abstractly -/
+
+theorem abs_write48 (m : Machine) (hk : m.kind = .k48) (addr : BitVec 16) (v : Byte) :
+    (Spec.abs (m.write addr v)).page = ((Spec.abs m).poke addr.toNat v).page := by
+  have hps : pageSize = 16384 := rfl
+  have hlt := addr.isLt
+  unfold Spec.AState.poke
+  by_cases hrom : addr.toNat < 16384
+  · rw [if_pos hrom]
+    have hz : addr.toNat / pageSize = 0 := by rw [hps]; omega
+    unfold Machine.write
+    rw [hz, page48_zero m hk]
+  · rw [if_neg hrom]
+    have hb1 : 1 ≤ addr.toNat / 16384 := by omega
+    have hb3 : addr.toNat / 16384 ≤ 3 := by omega
+    unfold Machine.write
+    rw [hps, page48 m hk _ hb1 hb3]
+    simp only
+    -- the page number the spec uses, and the bank the model uses
+    have hkm : m.kind = Spec.kindOfMid 1 := hk
+    have hpa : (Spec.abs m).pageAt (addr.toNat / 16384) ∈ [5, 2, 0] ∧
+        szxPageNo 1 ((Spec.abs m).pageAt (addr.toNat / 16384)) = addr.toNat / 16384 - 1 := by
+      have : addr.toNat / 16384 = 1 ∨ addr.toNat / 16384 = 2 ∨ addr.toNat / 16384 = 3 := by omega
+      rcases this with h | h | h <;> rw [h] <;> simp [Spec.AState.pageAt, Spec.abs, hk, szxPageNo]
+    have hset := abs_setBank 1 ((Spec.abs m).pageAt (addr.toNat / 16384)) m hkm
+      (by rw [if_pos (by decide)]; exact hpa.1)
+      ((m.ram (addr.toNat / 16384 - 1)).set (addr.toNat % 16384) v)
+    rw [hpa.2] at hset
+    have hpage : (Spec.abs m).page ((Spec.abs m).pageAt (addr.toNat / 16384)) = m.ram (addr.toNat / 16384 - 1) := by
+      have : addr.toNat / 16384 = 1 ∨ addr.toNat / 16384 = 2 ∨ addr.toNat / 16384 = 3 := by omega
+      rcases this with h | h | h <;> rw [h] <;> simp [Spec.AState.pageAt, Spec.abs, hk, Spec.absPage]
+    rw [hpage, ← hset]
+    rfl
+
+theorem poke_page_congr (a a' : Spec.AState) (hp : a.page = a'.page) (hm : a.model = .k48) (hm' : a'.model = .k48)
+    (x : Nat) (v : Byte) : (a.poke x v).page = (a'.poke x v).page := by
+  unfold Spec.AState.poke
+  split
+  · exact hp
+  · have hpa : a.pageAt (x / 16384) = a'.pageAt (x / 16384) := by
+      unfold Spec.AState.pageAt; rw [hm, hm']
+    simp only [Spec.AState.withPage, hpa, hp]
+
+theorem poke_model (a : Spec.AState) (x : Nat) (v : Byte) : (a.poke x v).model = a.model := by
+  unfold Spec.AState.poke; split <;> rfl
+
+/-- the pages of a 48K machine with PC pushed are the pages the spec's `pushed48` describes -/
+theorem abs_pushPc_pages (s : Machine) (hk : s.kind = .k48) :
+    (Spec.abs s.pushPc).page = (Spec.pushed48 (Spec.abs s)).page := by
+  have h1 := abs_write48 s hk (s.cpu.sp - 1) (hi s.cpu.pc)
+  have hk1 : (s.write (s.cpu.sp - 1) (hi s.cpu.pc)).kind = .k48 := by rw [write_kind]; exact hk
+  have h2 := abs_write48 (s.write (s.cpu.sp - 1) (hi s.cpu.pc)) hk1 (s.cpu.sp - 2) (lo s.cpu.pc)
+  show (Spec.abs ((s.write (s.cpu.sp - 1) (hi s.cpu.pc)).write (s.cpu.sp - 2) (lo s.cpu.pc))).page = _
+  rw [h2]
+  unfold Spec.pushed48
+  exact poke_page_congr _ _ h1 hk1 (by rw [poke_model]; exact hk) _ _
+
 end ZxVerif.Snap
